@@ -350,6 +350,23 @@ def m_rev_next(ex, st, callee, args):
     return m_iter_next(ex, st, callee, args)
 
 
+def m_option_filter(ex, st, callee, args):
+    """Option::filter(pred): Some(x) if pred(&x) else None"""
+    from sym import Invoke, Forks
+    v = args[0]
+    if not (isinstance(v, Adt) and v.ty == "Option"):
+        raise Inconclusive("Option::filter on %r" % (v,))
+    if v.variant == "None":
+        return [(None, NONE)]
+    fn = ex.closure_fn(callee)
+    if fn is None:
+        raise Inconclusive("no MIR item for the closure in " + callee)
+    st.nframe += 1
+    key = ("tmp", st.nframe)
+    st.cells[key] = v.fields[0]
+    return [(None, Invoke(fn, [args[1], Ref(key)], lambda st2, val: Forks([(val.e, v), (z3.Not(val.e), NONE)])))]
+
+
 def m_clone_structural(ex, st, callee, args):
     """Clone of a value whose model is an immutable tree (Option<..>, String, Rc handles: the handle is the value)"""
     return [(None, _val(ex, st, args[0], depth=1) if isinstance(args[0], Ref) else args[0])]
@@ -406,6 +423,7 @@ def install(m):
         (r"^<std::slice::Iter<'_, .*> as Iterator>::rev$", m_iter_rev),
         (r"^<Rev<std::slice::Iter<'_, .*>> as IntoIterator>::into_iter$", m_iter_into_iter),
         (r"^<Rev<std::slice::Iter<'_, .*>> as Iterator>::next$", m_rev_next),
+        (r"^Option::<.*>::filter::<", m_option_filter),
         (r"^Cell::<.*>::new$", m_cell_new),
         (r"^Cell::<.*>::get$", m_cell_get),
         (r"^Cell::<.*>::set$", m_cell_set),
